@@ -83,16 +83,28 @@ theorem upd_other {α : Type} (f : Key → α) {k k' : Key} (v : α) (h : k' ≠
 def Hot (P : Params) (i : Nat) (s0 : State) (k : Key) : Prop :=
   (latestOf s0 k).isSome = true ∧ failedK P i s0 k = true
 
+/-- the alert bookkeeping of the checker for one (name, peer): count and stamp -/
+def ca (s : State) (k : Key) : Nat × Nat := (s.cnt k, s.af k)
+
+theorem ecnt_congr {s s' : State} {k : Key} (hw : s'.win k = s.win k) (hc : ca s' k = ca s k) :
+    ecnt s' k = ecnt s k := by
+  simp only [ca, Prod.mk.injEq] at hc
+  unfold ecnt; rw [latestOf_congr hw, hc.1, hc.2]
+
+theorem ecnt_le (s : State) (k : Key) : ecnt s k ≤ s.cnt k := by
+  unfold ecnt; split_ifs <;> omega
+
 /-- untouched so far -/
 def PhA (s0 : State) (acc : State × List Alert) (k : Key) : Prop :=
-  acc.1.win k = s0.win k ∧ acc.1.cnt k = s0.cnt k ∧ k ∉ alertKeys acc.2
+  acc.1.win k = s0.win k ∧ ca acc.1 k = ca s0 k ∧ k ∉ alertKeys acc.2
 /-- alerted by this check -/
 def PhB (P : Params) (i : Nat) (s0 : State) (acc : State × List Alert) (k : Key) : Prop :=
-  acc.1.win k = s0.win k ∧ s0.cnt k = 0 ∧ acc.1.cnt k = 1 ∧ k ∈ alertKeys acc.2 ∧ Hot P i s0 k
+  acc.1.win k = s0.win k ∧ ecnt s0 k = 0 ∧ ca acc.1 k = (1, stampOf (latestOf s0 k)) ∧
+    k ∈ alertKeys acc.2 ∧ Hot P i s0 k
 /-- forgotten by this check -/
 def PhC (P : Params) (i : Nat) (s0 : State) (acc : State × List Alert) (k : Key) : Prop :=
-  acc.1.win k = none ∧ acc.1.cnt k = 0 ∧ Hot P i s0 k ∧
-    ((s0.cnt k = 1 ∧ k ∉ alertKeys acc.2) ∨ (s0.cnt k = 0 ∧ k ∈ alertKeys acc.2))
+  acc.1.win k = none ∧ ca acc.1 k = (0, 0) ∧ Hot P i s0 k ∧
+    ((ecnt s0 k = 1 ∧ k ∉ alertKeys acc.2) ∨ (ecnt s0 k = 0 ∧ k ∈ alertKeys acc.2))
 
 structure Track (P : Params) (i : Nat) (s0 : State) (done : List Key) (acc : State × List Alert) : Prop where
   keys : acc.1.keys = s0.keys
@@ -127,26 +139,29 @@ theorem track_step (P : Params) (hmax : P.maxA = 1) (i : Nat) (s0 : State) (hc :
     by_cases hf : failedK P i acc.1 k = true
     · rw [if_pos hf]
       unfold alertK
-      by_cases hcnt : acc.1.cnt k ≥ P.maxA
+      by_cases hcnt : ecnt acc.1 k ≥ P.maxA
       · -- forget
         rw [if_pos hcnt]
         rw [hmax] at hcnt
-        have hkC : PhC P i s0 (({ acc.1 with win := upd acc.1.win k none, cnt := upd acc.1.cnt k 0 } : State), acc.2) k := by
+        have hkC : PhC P i s0 (({ acc.1 with win := upd acc.1.win k none, cnt := upd acc.1.cnt k 0, af := upd acc.1.af k 0 } : State), acc.2) k := by
           rcases h.phase k with ⟨hw, hc', hn⟩ | ⟨hw, h0, h1, hm, hh⟩ | ⟨hw, _⟩
-          · refine ⟨upd_same _ _ _, upd_same _ _ _, ⟨?_, ?_⟩, Or.inl ⟨?_, hn⟩⟩
+          · refine ⟨upd_same _ _ _, by simp [ca, upd], ⟨?_, ?_⟩, Or.inl ⟨?_, hn⟩⟩
             · rw [← latestOf_congr hw]; cases hx : latestOf acc.1 k <;> simp [hx] at hl ⊢
             · rw [← failedK_congr P i hw]; exact hf
-            · have := hc k; omega
-          · exact ⟨upd_same _ _ _, upd_same _ _ _, hh, Or.inr ⟨h0, hm⟩⟩
+            · have h1 := hc k
+              have h2 := ecnt_le s0 k
+              rw [ecnt_congr hw hc'] at hcnt
+              omega
+          · exact ⟨upd_same _ _ _, by simp [ca, upd], hh, Or.inr ⟨h0, hm⟩⟩
           · exfalso; apply hl; unfold latestOf; rw [hw]; rfl
         refine { keys := h.keys, ps := h.ps, nodup := h.nodup, phase := ?_, prog := ?_ }
         · intro k'
           by_cases hk' : k' = k
           · subst hk'; exact Or.inr (Or.inr hkC)
           · rcases h.phase k' with ⟨a, b, c⟩ | ⟨a, b, c, d, e⟩ | ⟨a, b, c, d⟩
-            · exact Or.inl ⟨by simpa [upd, hk'] using a, by simpa [upd, hk'] using b, c⟩
-            · exact Or.inr (Or.inl ⟨by simpa [upd, hk'] using a, b, by simpa [upd, hk'] using c, d, e⟩)
-            · exact Or.inr (Or.inr ⟨by simpa [upd, hk'] using a, by simpa [upd, hk'] using b, c, d⟩)
+            · exact Or.inl ⟨by simpa [upd, hk'] using a, by simpa [ca, upd, hk'] using b, c⟩
+            · exact Or.inr (Or.inl ⟨by simpa [upd, hk'] using a, b, by simpa [ca, upd, hk'] using c, d, e⟩)
+            · exact Or.inr (Or.inr ⟨by simpa [upd, hk'] using a, by simpa [ca, upd, hk'] using b, c, d⟩)
         · intro k' hk'm hh hA
           by_cases hk' : k' = k
           · subst hk'
@@ -160,17 +175,22 @@ theorem track_step (P : Params) (hmax : P.maxA = 1) (i : Nat) (s0 : State) (hc :
             · exact hk' rfl
             · apply h.prog k' hk'm hh
               obtain ⟨a, b, c⟩ := hA
-              exact ⟨by simpa [upd, hk'] using a, by simpa [upd, hk'] using b, c⟩
+              exact ⟨by simpa [upd, hk'] using a, by simpa [ca, upd, hk'] using b, c⟩
       · -- alert
         rw [if_neg hcnt]
         rw [hmax] at hcnt
-        have hc0 : acc.1.cnt k = 0 := by omega
+        have hc0 : ecnt acc.1 k = 0 := by omega
         have hA : PhA s0 acc k := by
-          rcases h.phase k with hA | ⟨_, _, h1, _⟩ | ⟨hw, _⟩
+          rcases h.phase k with hA | ⟨hw, _, h1, _⟩ | ⟨hw, _⟩
           · exact hA
-          · omega
+          · exfalso
+            simp only [ca, Prod.mk.injEq] at h1
+            have : ecnt acc.1 k = 1 := by
+              unfold ecnt; rw [latestOf_congr hw, h1.2, h1.1]; simp
+            omega
           · exfalso; apply hl; unfold latestOf; rw [hw]; rfl
         obtain ⟨hw, hcc, hn⟩ := hA
+        have he0 : ecnt s0 k = 0 := by rw [← ecnt_congr hw hcc]; exact hc0
         have hkeys : alertKeys (acc.2 ++ [(k.1, k.2, (latestOf acc.1 k).map (·.id))]) = alertKeys acc.2 ++ [k] := by
           simp [alertKeys, Alert.key]
         have hhot : Hot P i s0 k := by
@@ -184,14 +204,15 @@ theorem track_step (P : Params) (hmax : P.maxA = 1) (i : Nat) (s0 : State) (hc :
         · intro k'
           by_cases hk' : k' = k
           · subst hk'
-            refine Or.inr (Or.inl ⟨hw, by omega, by simp [upd, hc0], ?_, hhot⟩)
-            simp only; rw [hkeys]; simp
+            refine Or.inr (Or.inl ⟨hw, he0, ?_, ?_, hhot⟩)
+            · simp [ca, upd, hc0, latestOf_congr hw]
+            · simp only; rw [hkeys]; simp
           · have hmem : k' ∈ alertKeys (acc.2 ++ [(k.1, k.2, (latestOf acc.1 k).map (·.id))]) ↔ k' ∈ alertKeys acc.2 := by
               rw [hkeys]; simp [hk']
             rcases h.phase k' with ⟨a, b, c⟩ | ⟨a, b, c, d, e⟩ | ⟨a, b, c, d⟩
-            · exact Or.inl ⟨a, by simpa [upd, hk'] using b, by simpa only [hmem] using c⟩
-            · exact Or.inr (Or.inl ⟨a, b, by simpa [upd, hk'] using c, by simpa only [hmem] using d, e⟩)
-            · refine Or.inr (Or.inr ⟨a, by simpa [upd, hk'] using b, c, ?_⟩)
+            · exact Or.inl ⟨a, by simpa [ca, upd, hk'] using b, by simpa only [hmem] using c⟩
+            · exact Or.inr (Or.inl ⟨a, b, by simpa [ca, upd, hk'] using c, by simpa only [hmem] using d, e⟩)
+            · refine Or.inr (Or.inr ⟨a, by simpa [ca, upd, hk'] using b, c, ?_⟩)
               simpa only [hmem] using d
         · intro k' hk'm hh hA
           by_cases hk' : k' = k
@@ -204,7 +225,7 @@ theorem track_step (P : Params) (hmax : P.maxA = 1) (i : Nat) (s0 : State) (hc :
               have hmem : k' ∈ alertKeys (acc.2 ++ [(k.1, k.2, (latestOf acc.1 k).map (·.id))]) ↔ k' ∈ alertKeys acc.2 := by
                 rw [hkeys]; simp [hk']
               obtain ⟨a, b, c⟩ := hA
-              exact ⟨a, by simpa [upd, hk'] using b, by simpa only [hmem] using c⟩
+              exact ⟨a, by simpa [ca, upd, hk'] using b, by simpa only [hmem] using c⟩
     · rw [if_neg hf]
       refine keep ?_
       rintro ⟨_, hs⟩ ⟨hw, _, _⟩
@@ -229,7 +250,7 @@ theorem checkOneP_frame (P : Params) (i : Nat) (acc : State × List Alert) {k k'
   by_cases h1 : (latestOf acc.1 k).isNone = true
   · simp [h1]
   · by_cases h2 : failedK P i acc.1 k = true
-    · by_cases h3 : acc.1.cnt k ≥ P.maxA
+    · by_cases h3 : ecnt acc.1 k ≥ P.maxA
       · simp [h1, h2, h3, upd, h]
       · simp [h1, h2, h3, upd, h]
     · simp [h1, h2]
@@ -324,11 +345,26 @@ structure Inv (P : Params) (hist : List Op) (s : State) (t : SState) : Prop wher
     xs.length = min P.cap (t.key k).count ∧ 0 < (t.key k).count ∧ (t.key k).latest = xs.getLast?
   own : ∀ k m, (t.key k).latest = some m → (m.name, m.peer) = k ∧ Op.add m ∈ hist
   cnt : ∀ k, s.cnt k ≤ 1
-  rep : ∀ k, (t.key k).reported = true → s.cnt k = 1
+  rep : ∀ k, (t.key k).reported = true → s.cnt k = 1 ∧ s.af k = stampOf (t.key k).latest
 
 /-- the extra part that only holds while the alert counters follow the renewals -/
 def Sync (s : State) (t : SState) : Prop :=
-  ∀ k, (t.key k).latest ≠ none → s.cnt k = 1 → (t.key k).reported = true
+  ∀ k, (t.key k).latest ≠ none → s.cnt k = 1 → s.af k = stampOf (t.key k).latest → (t.key k).reported = true
+
+/-- stamps in use are older than the position `i` the history has reached -/
+def Fresh (i : Nat) (s : State) (t : SState) : Prop :=
+  (∀ k, s.af k ≤ i) ∧ ∀ k m, (t.key k).latest = some m → m.id < i
+
+theorem Fresh.mono {i j : Nat} {s : State} {t : SState} (h : Fresh i s t) (hij : i ≤ j) : Fresh j s t :=
+  ⟨fun k => Nat.le_trans (h.1 k) hij, fun k m hm => Nat.lt_of_lt_of_le (h.2 k m hm) hij⟩
+
+theorem fresh_of {i : Nat} {s s' : State} {t t' : SState} (h : Fresh i s t) (ha : ∀ k, s'.af k = s.af k)
+    (hl : ∀ k m, (t'.key k).latest = some m → (t.key k).latest = some m) : Fresh (i + 1) s' t' :=
+  ⟨fun k => by rw [ha]; have := h.1 k; omega, fun k m hm => by have := h.2 k m (hl k m hm); omega⟩
+
+theorem fresh_init (ps : Peerset) : Fresh 0 (State.init ps) (SState.init ps) := by
+  refine ⟨by simp [State.init], ?_⟩
+  intro k m hm; simp [SState.init] at hm
 
 theorem Inv.latest {P : Params} {hist : List Op} {s : State} {t : SState} (h : Inv P hist s t) (k : Key) :
     latestOf s k = (t.key k).latest := by
@@ -355,14 +391,29 @@ theorem inv_init (P : Params) (hist : List Op) (ps : Peerset) : Inv P hist (Stat
 theorem sync_init (ps : Peerset) : Sync (State.init ps) (SState.init ps) := by
   intro k hk; simp [SState.init] at hk
 
+theorem Inv.ecnt_eq {P : Params} {hist : List Op} {s : State} {t : SState} (h : Inv P hist s t) (k : Key) :
+    ecnt s k = if s.af k = stampOf (t.key k).latest then s.cnt k else 0 := by
+  unfold CV.C09.ecnt; rw [h.latest]
+
+theorem Inv.ecnt_one {P : Params} {hist : List Op} {s : State} {t : SState} (h : Inv P hist s t) {k : Key}
+    (he : CV.C09.ecnt s k = 1) : s.cnt k = 1 ∧ s.af k = stampOf (t.key k).latest := by
+  rw [h.ecnt_eq] at he
+  split_ifs at he with ha
+  exact ⟨he, ha⟩
+
+theorem Inv.ecnt_zero_or_one {P : Params} {hist : List Op} {s : State} {t : SState} (h : Inv P hist s t)
+    (k : Key) : CV.C09.ecnt s k = 0 ∨ CV.C09.ecnt s k = 1 := by
+  have := ecnt_le s k
+  have := h.cnt k
+  omega
+
 /-- the bookkeeping entry after an arrival -/
 def addEntry (e : SKey) (m : Metric) : SKey :=
-  { e with latest := some m, count := e.count + 1, reported := if m.expired then e.reported else false }
+  { e with latest := some m, count := e.count + 1, reported := false }
 
 @[simp] theorem addEntry_latest (e : SKey) (m : Metric) : (addEntry e m).latest = some m := rfl
 @[simp] theorem addEntry_count (e : SKey) (m : Metric) : (addEntry e m).count = e.count + 1 := rfl
-@[simp] theorem addEntry_reported (e : SKey) (m : Metric) :
-    (addEntry e m).reported = if m.expired then e.reported else false := rfl
+@[simp] theorem addEntry_reported (e : SKey) (m : Metric) : (addEntry e m).reported = false := rfl
 
 theorem inv_add {P : Params} {hist : List Op} {s : State} {t : SState} (hc : 0 < P.cap) (h : Inv P hist s t)
     (m : Metric) (hm : Op.add m ∈ hist) (o : Obs) : Inv P hist (s.add P m) (specStep t (.add m) o) := by
@@ -437,44 +488,44 @@ theorem inv_add {P : Params} {hist : List Op} {s : State} {t : SState} (hc : 0 <
       exact h.own k' m' hm'
   · intro k'; simpa [State.add] using h.cnt k'
   · intro k' hk'
-    rw [hkey] at hk'
+    rw [hkey] at hk' ⊢
     have hcnt : (s.add P m).cnt k' = s.cnt k' := by simp [State.add]
-    rw [hcnt]
+    have haf : (s.add P m).af k' = s.af k' := by simp [State.add]
+    rw [hcnt, haf]
     by_cases he : k' = (m.name, m.peer)
-    · rw [if_pos he] at hk'
-      subst he
-      apply h.rep
-      by_cases hx : m.expired = true
-      · simpa [hx] using hk'
-      · simp [hx] at hk'
-    · rw [if_neg he] at hk'
+    · rw [if_pos he] at hk'; simp at hk'
+    · rw [if_neg he] at hk' ⊢
       exact h.rep k' hk'
 
-/-- an arrival keeps the counters in step with the renewals if the counter of its
-    (name, peer) is clear, or it is an expired metric on top of a stored one -/
-def calmAdd (s : State) (m : Metric) : Prop :=
-  s.cnt (m.name, m.peer) = 0 ∨ (m.expired = true ∧ (latestOf s (m.name, m.peer)).isSome = true)
-
-theorem sync_add {P : Params} {hist : List Op} {s : State} {t : SState} (h : Inv P hist s t) (hs : Sync s t)
-    (m : Metric) (hcalm : calmAdd s m) (o : Obs) : Sync (s.add P m) (specStep t (.add m) o) := by
-  intro k' hl hc
-  have hkey : (specStep t (.add m) o).key k' =
+/-- an arrival at position `i` carries a stamp no alert count refers to yet -/
+theorem sync_add {P : Params} {i : Nat} {s : State} {t : SState} (hs : Sync s t)
+    (hF : Fresh i s t) (m : Metric) (hid : m.id = i) (o : Obs) :
+    Sync (s.add P m) (specStep t (.add m) o) ∧ Fresh (i + 1) (s.add P m) (specStep t (.add m) o) := by
+  have hkey : ∀ k', (specStep t (.add m) o).key k' =
       if k' = (m.name, m.peer) then addEntry (t.key (m.name, m.peer)) m else t.key k' := by
-    simp [specStep, setKey, upd, addEntry]
-  have hcnt : (s.add P m).cnt k' = s.cnt k' := by simp [State.add]
-  rw [hcnt] at hc
-  rw [hkey] at hl ⊢
-  by_cases he : k' = (m.name, m.peer)
-  · subst he
-    rw [if_pos rfl]
-    rcases hcalm with h0 | ⟨hx, hsome⟩
-    · omega
-    · simp only [addEntry_reported, hx, if_true]
-      apply hs _ _ hc
-      rw [← h.latest]
-      cases hy : latestOf s (m.name, m.peer) <;> simp [hy] at hsome ⊢
-  · rw [if_neg he] at hl ⊢
-    exact hs k' hl hc
+    intro k'; simp [specStep, setKey, upd, addEntry]
+  have hcnt : ∀ k', (s.add P m).cnt k' = s.cnt k' := by intro k'; simp [State.add]
+  have haf : ∀ k', (s.add P m).af k' = s.af k' := by intro k'; simp [State.add]
+  constructor
+  · intro k' hl hc ha
+    rw [hcnt] at hc
+    rw [haf] at ha
+    rw [hkey] at hl ha ⊢
+    by_cases he : k' = (m.name, m.peer)
+    · rw [if_pos he] at ha
+      simp only [addEntry_latest, stampOf] at ha
+      have := hF.1 k'
+      omega
+    · rw [if_neg he] at hl ha ⊢
+      exact hs k' hl hc ha
+  · refine ⟨fun k' => by rw [haf]; have := hF.1 k'; omega, ?_⟩
+    intro k' m' hm'
+    rw [hkey] at hm'
+    by_cases he : k' = (m.name, m.peer)
+    · rw [if_pos he] at hm'
+      simp at hm'; subst hm'; omega
+    · rw [if_neg he] at hm'
+      have := hF.2 k' m' hm'; omega
 
 theorem inv_rmPeer {P : Params} {hist : List Op} {s : State} {t : SState} (h : Inv P hist s t)
     (p : Nat) (o : Obs) : Inv P hist (s.rmPeer p) (specStep t (.rmPeer p) o) := by
@@ -515,23 +566,23 @@ theorem inv_rmPeer {P : Params} {hist : List Op} {s : State} {t : SState} (h : I
       exact h.own k' m hm
   · intro k'; simpa [State.rmPeer] using h.cnt k'
   · intro k' hk'
-    rw [hkey] at hk'
+    rw [hkey] at hk' ⊢
     by_cases he : k'.2 = p
     · simp [he] at hk'
-    · rw [if_neg he] at hk'
+    · rw [if_neg he] at hk' ⊢
       simpa [State.rmPeer] using h.rep k' hk'
 
 theorem sync_rmPeer {s : State} {t : SState} (hs : Sync s t) (p : Nat) (o : Obs) :
     Sync (s.rmPeer p) (specStep t (.rmPeer p) o) := by
-  intro k' hl hc
+  intro k' hl hc ha
   have hkey : (specStep t (.rmPeer p) o).key k' =
       if k'.2 = p then { t.key k' with latest := none, count := 0, reported := false } else t.key k' := by
     simp [specStep]
-  rw [hkey] at hl ⊢
+  rw [hkey] at hl ha ⊢
   by_cases he : k'.2 = p
   · simp [he] at hl
-  · rw [if_neg he] at hl ⊢
-    exact hs k' hl (by simpa [State.rmPeer] using hc)
+  · rw [if_neg he] at hl ha ⊢
+    exact hs k' hl (by simpa [State.rmPeer] using hc) (by simpa [State.rmPeer] using ha)
 
 theorem inv_rmMetrics {P : Params} {hist : List Op} {s : State} {t : SState} (h : Inv P hist s t)
     (n p : Nat) (o : Obs) : Inv P hist (s.rmMetrics (n, p)) (specStep t (.rmMetrics n p) o) := by
@@ -572,23 +623,23 @@ theorem inv_rmMetrics {P : Params} {hist : List Op} {s : State} {t : SState} (h 
       exact h.own k' m hm
   · intro k'; simpa [State.rmMetrics] using h.cnt k'
   · intro k' hk'
-    rw [hkey] at hk'
+    rw [hkey] at hk' ⊢
     by_cases he : k' = (n, p)
     · simp [he] at hk'
-    · rw [if_neg he] at hk'
+    · rw [if_neg he] at hk' ⊢
       simpa [State.rmMetrics] using h.rep k' hk'
 
 theorem sync_rmMetrics {s : State} {t : SState} (hs : Sync s t) (n p : Nat) (o : Obs) :
     Sync (s.rmMetrics (n, p)) (specStep t (.rmMetrics n p) o) := by
-  intro k' hl hc
+  intro k' hl hc ha
   have hkey : (specStep t (.rmMetrics n p) o).key k' =
       if k' = (n, p) then { t.key (n, p) with latest := none, count := 0, reported := false } else t.key k' := by
     simp [specStep, setKey, upd]
-  rw [hkey] at hl ⊢
+  rw [hkey] at hl ha ⊢
   by_cases he : k' = (n, p)
   · simp [he] at hl
-  · rw [if_neg he] at hl ⊢
-    exact hs k' hl (by simpa [State.rmMetrics] using hc)
+  · rw [if_neg he] at hl ha ⊢
+    exact hs k' hl (by simpa [State.rmMetrics] using hc) (by simpa [State.rmMetrics] using ha)
 
 theorem inv_setPeers {P : Params} {hist : List Op} {s : State} {t : SState} (h : Inv P hist s t)
     (ps : Peerset) (o : Obs) : Inv P hist { s with ps := ps } (specStep t (.setPeers ps) o) :=
@@ -735,19 +786,22 @@ theorem inv_check {P : Params} {hist : List Op} {i : Nat} {s : State} {t : SStat
       exact hI.own k m hm
   · intro k
     rcases hT.phase k with ⟨_, hc, _⟩ | ⟨_, _, hc, _⟩ | ⟨_, hc, _⟩
-    · rw [hc]; exact hI.cnt k
-    · omega
-    · omega
+    · simp only [ca, Prod.mk.injEq] at hc; rw [hc.1]; exact hI.cnt k
+    · simp only [ca, Prod.mk.injEq] at hc; omega
+    · simp only [ca, Prod.mk.injEq] at hc; omega
   · intro k hk
-    rw [hent] at hk
+    rw [hent] at hk ⊢
     by_cases hf : k ∈ forgotten s acc.1
     · rw [hgone k hf] at hk; cases hk
-    · rcases hT.phase k with ⟨_, hc, hn⟩ | ⟨_, _, hc, _⟩ | hC
-      · rw [hc]
+    · rw [(hkeep k hf).1]
+      rcases hT.phase k with ⟨_, hc, hn⟩ | ⟨_, _, hc, _⟩ | hC
+      · simp only [ca, Prod.mk.injEq] at hc
+        rw [hc.1, hc.2]
         rcases ((hkeep k hf).2.2).1 hk with hr | hm
         · exact hI.rep k hr
         · exact absurd hm hn
-      · exact hc
+      · simp only [ca, Prod.mk.injEq] at hc
+        rw [← hI.latest]; exact hc
       · exact absurd ((forgotten_iff hI hT k).2 hC) hf
 
 theorem sync_check {P : Params} {hist : List Op} {i : Nat} {s : State} {t : SState} {done : List Key}
@@ -755,26 +809,49 @@ theorem sync_check {P : Params} {hist : List Op} {i : Nat} {s : State} {t : SSta
     (hop : isCheck op = true) :
     Sync acc.1 (specStep t op (.check acc.2 (forgotten s acc.1))) := by
   obtain ⟨hkey, _, _⟩ := specStep_check t op hop acc.2 (forgotten s acc.1)
-  intro k hl hc
-  rw [hkey] at hl ⊢
-  unfold checkEntry at hl ⊢
+  intro k hl hc ha
+  rw [hkey] at hl ha ⊢
+  unfold checkEntry at hl ha ⊢
   by_cases hf : (forgotten s acc.1).contains k = true
   · rw [if_pos hf] at hl; simp at hl
-  · rw [if_neg hf] at hl ⊢
+  · rw [if_neg hf] at hl ha ⊢
     have hf' : k ∉ forgotten s acc.1 := by simpa using hf
-    by_cases ha : (alertKeys acc.2).contains k = true
-    · rw [if_pos ha]
-    · rw [if_neg ha] at hl ⊢
-      have ha' : k ∉ alertKeys acc.2 := by simpa using ha
+    by_cases hal : (alertKeys acc.2).contains k = true
+    · rw [if_pos hal]
+    · rw [if_neg hal] at hl ha ⊢
+      have ha' : k ∉ alertKeys acc.2 := by simpa using hal
       rcases hT.phase k with ⟨_, hcc, _⟩ | ⟨_, _, _, hm, _⟩ | hC
-      · exact hS k hl (hcc ▸ hc)
+      · simp only [ca, Prod.mk.injEq] at hcc
+        exact hS k hl (hcc.1 ▸ hc) (hcc.2 ▸ ha)
       · exact absurd hm ha'
       · exact absurd ((forgotten_iff hI hT k).2 hC) hf'
+
+theorem fresh_check {P : Params} {hist : List Op} {i : Nat} {s : State} {t : SState} {done : List Key}
+    {acc : State × List Alert} (hI : Inv P hist s t) (hF : Fresh i s t) (hT : Track P i s done acc) (op : Op)
+    (hop : isCheck op = true) :
+    Fresh (i + 1) acc.1 (specStep t op (.check acc.2 (forgotten s acc.1))) := by
+  obtain ⟨hkey, _, _⟩ := specStep_check t op hop acc.2 (forgotten s acc.1)
+  constructor
+  · intro k
+    rcases hT.phase k with ⟨_, hc, _⟩ | ⟨_, _, hc, _, hh⟩ | ⟨_, hc, _⟩
+    · simp only [ca, Prod.mk.injEq] at hc; rw [hc.2]; have := hF.1 k; omega
+    · simp only [ca, Prod.mk.injEq] at hc
+      obtain ⟨m, hm⟩ := Option.isSome_iff_exists.1 hh.1
+      rw [hc.2, hm]
+      have := hF.2 k m (by rw [← hI.latest]; exact hm)
+      simp only [stampOf]; omega
+    · simp only [ca, Prod.mk.injEq] at hc; omega
+  · intro k m hm
+    rw [hkey] at hm
+    unfold checkEntry at hm
+    split_ifs at hm with h1 h2
+    · have := hF.2 k m hm; omega
+    · have := hF.2 k m hm; omega
 
 /-! ### the clauses at a failure check -/
 
 theorem alerted_facts {P : Params} {i : Nat} {s : State} {done : List Key} {acc : State × List Alert}
-    (hT : Track P i s done acc) {k : Key} (hk : k ∈ alertKeys acc.2) : s.cnt k = 0 ∧ Hot P i s k := by
+    (hT : Track P i s done acc) {k : Key} (hk : k ∈ alertKeys acc.2) : ecnt s k = 0 ∧ Hot P i s k := by
   rcases hT.phase k with ⟨_, _, hn⟩ | ⟨_, h0, _, _, hh⟩ | ⟨_, _, hh, ⟨_, hn⟩ | ⟨h0, _⟩⟩
   · exact absurd hk hn
   · exact ⟨h0, hh⟩
@@ -801,7 +878,10 @@ theorem check_alert_once {P : Params} {hist : List Op} {i : Nat} {s : State} {t 
   have h0 := (alerted_facts hT hk).1
   cases hr : (t.key a.key).reported with
   | false => rfl
-  | true => have := hI.rep _ hr; omega
+  | true =>
+    have := hI.rep _ hr
+    rw [hI.ecnt_eq, if_pos this.2] at h0
+    omega
 
 theorem mem_dedupN {l : List Nat} {x : Nat} : x ∈ dedupN l ↔ x ∈ l := by
   induction l with
@@ -896,12 +976,12 @@ theorem check_expired_reported {P : Params} {hist : List Op} {i : Nat} {s : Stat
     have hv := covered_visited hI hcalm hc hh.1
     have hl : (t.key k).latest ≠ none := by
       unfold stale at hs; intro h; simp [h] at hs
-    have hc0 : s.cnt k = 0 := by
-      have h1 := hI.cnt k
-      by_contra hne
-      have : s.cnt k = 1 := by omega
-      have := hS k hl this
-      rw [hr] at this; cases this
+    have hc0 : ecnt s k = 0 := by
+      rcases hI.ecnt_zero_or_one k with h0 | h1
+      · exact h0
+      · obtain ⟨a, b⟩ := hI.ecnt_one h1
+        have := hS k hl a b
+        rw [hr] at this; cases this
     rcases visited_not_A hT hv hh with ⟨_, _, _, hmem, _⟩ | ⟨_, _, _, ⟨h1, _⟩ | ⟨_, hmem⟩⟩
     · simpa using hmem
     · omega
@@ -923,7 +1003,7 @@ theorem check_stale_forgotten {P : Params} {hist : List Op} {i : Nat} {s : State
     have hv := covered_visited hI hcalm hc hh.1
     have hc1 := hI.rep k hr
     rcases visited_not_A hT hv hh with ⟨_, h0, _⟩ | hC
-    · omega
+    · rw [hI.ecnt_eq, if_pos hc1.2] at h0; omega
     · exact (forgotten_iff hI hT k).2 hC
   · simp [hm]
 
@@ -940,7 +1020,8 @@ theorem check_forget_only_reported {P : Params} {hist : List Op} {i : Nat} {s : 
   have hst : stale t k = true := by unfold stale; rw [hl]; exact hx
   rw [hst, Bool.true_and, Bool.or_eq_true]
   rcases hcase with ⟨h1, _⟩ | ⟨_, hmem⟩
-  · exact Or.inl (hS k (by rw [hl]; simp) h1)
+  · obtain ⟨a, b⟩ := hI.ecnt_one h1
+    exact Or.inl (hS k (by rw [hl]; simp) a b)
   · exact Or.inr (by simpa using hmem)
 
 /-! ### the clauses at a query -/
@@ -1095,12 +1176,10 @@ def safeNames : List String :=
   ["at_most_one_per_peer", "most_recent", "valid_unexpired", "member", "fresh_never_failed", "alert_once",
    "shape", "no_panic"]
 
-/-- Boolean form of the hypothesis of the exactly-once clauses, per operation: an
-    arrival finds the alert counter of its (name, peer) clear (or is an expired metric
-    replacing a stored one), and a tick without peerset function finds every stored
-    latest metric valid. Evaluated on the model's states. -/
+/-- Boolean form of the hypothesis of the exactly-once clauses, per operation: a tick
+    without peerset function finds every stored latest metric valid (finding K10).
+    Evaluated on the model's states. -/
 def calmOpB (s : State) : Op → Bool
-  | .add m => s.cnt (m.name, m.peer) == 0 || (m.expired && (latestOf s (m.name, m.peer)).isSome)
   | .tick => !(s.ps == .unknown) ||
       s.keys.all (fun k => match latestOf s k with | some m => m.valid | none => true)
   | _ => true
@@ -1108,10 +1187,6 @@ def calmOpB (s : State) : Op → Bool
 def calmFrom (P : Params) : Nat → State → List Op → Bool
   | _, _, [] => true
   | i, s, op :: ops => calmOpB s op && calmFrom P (i + 1) (step P i s op).1 ops
-
-theorem calmAdd_of {s : State} {m : Metric} (h : calmOpB s (.add m) = true) : calmAdd s m := by
-  simp only [calmOpB, Bool.or_eq_true, beq_iff_eq, Bool.and_eq_true] at h
-  exact h
 
 theorem calmTick_of {s : State} {op : Op} (h : calmOpB s op = true) : calmTick s op := by
   intro hop hps k hk m hm
@@ -1124,33 +1199,49 @@ theorem op_step {P : Params} (hc : 0 < P.cap) (hmax : P.maxA = 1) {hist : List O
     (i : Nat) {s : State} {t : SState} (hI : Inv P hist s t) (op : Op) (hop : op ∈ hist) :
     Inv P hist (step P i s op).1 (specStep t op (step P i s op).2) ∧
     (∀ c ∈ opClauses P.cap P.orc hist i t op (step P i s op).2, c.1 ∈ safeNames → c.2 = true) ∧
-    (Sync s t → calmOpB s op = true →
+    (Sync s t → Fresh i s t → calmOpB s op = true → (∀ m, op = .add m → m.id = i) →
       Sync (step P i s op).1 (specStep t op (step P i s op).2) ∧
+      Fresh (i + 1) (step P i s op).1 (specStep t op (step P i s op).2) ∧
       ∀ c ∈ opClauses P.cap P.orc hist i t op (step P i s op).2, c.2 = true) := by
   cases op with
   | add m =>
-    refine ⟨inv_add hc hI m hop _, by simp [step, opClauses], fun hS hcalm => ⟨?_, by simp [step, opClauses]⟩⟩
-    exact sync_add hI hS m (calmAdd_of hcalm) _
+    refine ⟨inv_add hc hI m hop _, by simp [step, opClauses], fun hS hF _ hid => ?_⟩
+    obtain ⟨a, b⟩ := sync_add (P := P) hS hF m (hid m rfl) Obs.silent
+    exact ⟨a, b, by simp [step, opClauses]⟩
   | rmPeer p =>
-    exact ⟨inv_rmPeer hI p _, by simp [step, opClauses], fun hS _ => ⟨sync_rmPeer hS p _, by simp [step, opClauses]⟩⟩
+    refine ⟨inv_rmPeer hI p _, by simp [step, opClauses], fun hS hF _ _ =>
+      ⟨sync_rmPeer hS p _, ?_, by simp [step, opClauses]⟩⟩
+    apply fresh_of hF (by intro k; simp [step, State.rmPeer])
+    intro k m hm
+    simp only [specStep] at hm
+    split_ifs at hm
+    exact hm
   | rmMetrics n p =>
-    exact ⟨inv_rmMetrics hI n p _, by simp [step, opClauses],
-      fun hS _ => ⟨sync_rmMetrics hS n p _, by simp [step, opClauses]⟩⟩
+    refine ⟨inv_rmMetrics hI n p _, by simp [step, opClauses], fun hS hF _ _ =>
+      ⟨sync_rmMetrics hS n p _, ?_, by simp [step, opClauses]⟩⟩
+    apply fresh_of hF (by intro k; simp [step, State.rmMetrics])
+    intro k m hm
+    simp only [specStep, setKey, upd] at hm
+    split_ifs at hm
+    exact hm
   | setPeers ps =>
-    refine ⟨inv_setPeers hI ps _, by simp [step, opClauses], fun hS _ => ⟨?_, by simp [step, opClauses]⟩⟩
-    intro k hl hcnt
-    exact hS k (by simpa [specStep] using hl) hcnt
+    refine ⟨inv_setPeers hI ps _, by simp [step, opClauses], fun hS hF _ _ => ⟨?_, ?_, by simp [step, opClauses]⟩⟩
+    · intro k hl hcnt ha
+      exact hS k (by simpa [specStep] using hl) hcnt (by simpa [step, specStep] using ha)
+    · exact fresh_of hF (by intro k; simp [step]) (by intro k m hm; simpa [step, specStep] using hm)
   | query n =>
     have hq := query_clauses_hold hI hids n
-    refine ⟨by simpa [step, specStep] using hI, ?_, fun hS _ => ⟨by simpa [step, specStep] using hS, ?_⟩⟩
+    refine ⟨by simpa [step, specStep] using hI, ?_, fun hS hF _ _ => ⟨by simpa [step, specStep] using hS, ?_, ?_⟩⟩
     · intro c hcm _
       exact hq c (by simpa [step, opClauses] using hcm)
+    · exact fresh_of hF (by intro k; simp [step]) (by intro k m hm; simpa [step, specStep] using hm)
     · intro c hcm
       exact hq c (by simpa [step, opClauses] using hcm)
   | tick =>
     have hT := track_check P hmax i s hI.cnt hI.nodup .tick
     rw [step_check P i s .tick rfl]
-    refine ⟨inv_check hI hT .tick rfl, ?_, fun hS hcalm => ⟨sync_check hI hS hT .tick rfl, ?_⟩⟩
+    refine ⟨inv_check hI hT .tick rfl, ?_, fun hS hF hcalm _ =>
+      ⟨sync_check hI hS hT .tick rfl, fresh_check hI hF hT .tick rfl, ?_⟩⟩
     · intro c hcm hn
       simp only [opClauses, checkClauses, List.mem_cons, List.mem_nil_iff, or_false] at hcm
       rcases hcm with rfl | rfl | rfl | rfl | rfl
@@ -1170,7 +1261,8 @@ theorem op_step {P : Params} (hc : 0 < P.cap) (hmax : P.maxA = 1) {hist : List O
   | checkPeers l =>
     have hT := track_check P hmax i s hI.cnt hI.nodup (.checkPeers l)
     rw [step_check P i s (.checkPeers l) rfl]
-    refine ⟨inv_check hI hT (.checkPeers l) rfl, ?_, fun hS hcalm => ⟨sync_check hI hS hT (.checkPeers l) rfl, ?_⟩⟩
+    refine ⟨inv_check hI hT (.checkPeers l) rfl, ?_, fun hS hF hcalm _ =>
+      ⟨sync_check hI hS hT (.checkPeers l) rfl, fresh_check hI hF hT (.checkPeers l) rfl, ?_⟩⟩
     · intro c hcm hn
       simp only [opClauses, checkClauses, List.mem_cons, List.mem_nil_iff, or_false] at hcm
       rcases hcm with rfl | rfl | rfl | rfl | rfl
@@ -1202,22 +1294,29 @@ theorem safe_from {P : Params} (hc : 0 < P.cap) (hmax : P.maxA = 1) {hist : List
     · exact hsafe c h1 hn
     · exact ih (i + 1) _ _ hI' (fun o ho => hsub o (by simp [ho])) c h2 hn
 
+theorem idsAt_cons {i : Nat} {op : Op} {ops : List Op} (h : idsAt i (op :: ops) = true) :
+    (∀ m, op = .add m → m.id = i) ∧ idsAt (i + 1) ops = true := by
+  cases op <;> simp [idsAt] at h ⊢
+  · exact h
+  all_goals exact h
+
 theorem all_from {P : Params} (hc : 0 < P.cap) (hmax : P.maxA = 1) {hist : List Op} (hids : (ids hist).Nodup) :
-    ∀ (ops : List Op) (i : Nat) (s : State) (t : SState), Inv P hist s t → Sync s t →
-      (∀ op ∈ ops, op ∈ hist) → calmFrom P i s ops = true →
+    ∀ (ops : List Op) (i : Nat) (s : State) (t : SState), Inv P hist s t → Sync s t → Fresh i s t →
+      (∀ op ∈ ops, op ∈ hist) → idsAt i ops = true → calmFrom P i s ops = true →
       ∀ c ∈ clausesFrom P.cap P.orc hist i t ops (runFrom P i s ops), c.2 = true := by
   intro ops
   induction ops with
-  | nil => intro i s t _ _ _ _ c hcm; simp [clausesFrom, runFrom] at hcm
+  | nil => intro i s t _ _ _ _ _ _ c hcm; simp [clausesFrom, runFrom] at hcm
   | cons op ops ih =>
-    intro i s t hI hS hsub hcalm c hcm
+    intro i s t hI hS hF hsub hid hcalm c hcm
     simp only [calmFrom, Bool.and_eq_true] at hcalm
+    obtain ⟨hid1, hid2⟩ := idsAt_cons hid
     obtain ⟨hI', _, hstrong⟩ := op_step hc hmax hids i hI op (hsub op (by simp))
-    obtain ⟨hS', hall⟩ := hstrong hS hcalm.1
+    obtain ⟨hS', hF', hall⟩ := hstrong hS hF hcalm.1 hid1
     simp only [runFrom, clausesFrom, List.mem_append] at hcm
     rcases hcm with h1 | h2
     · exact hall c h1
-    · exact ih (i + 1) _ _ hI' hS' (fun o ho => hsub o (by simp [ho])) hcalm.2 c h2
+    · exact ih (i + 1) _ _ hI' hS' hF' (fun o ho => hsub o (by simp [ho])) hid2 hcalm.2 c h2
 
 /-! ### wrap-around -/
 
@@ -1272,9 +1371,9 @@ variable (P : Params) (hmax : P.maxA = 1) (k : Key) (w0 : Window) (m : Metric)
   (hl : w0.latest = some m) (hx : m.expired = true)
   (hf : w0.count < accrualMin ∨ ∀ i, P.orc i k.1 k.2 = true)
 
-def S0 (s : State) : Prop := s.win k = some w0 ∧ s.cnt k = 0
-def S1 (s : State) : Prop := s.win k = some w0 ∧ s.cnt k = 1
-def S2 (s : State) : Prop := s.win k = none ∧ s.cnt k = 0
+def S0 (s : State) : Prop := s.win k = some w0 ∧ ecnt s k = 0
+def S1 (s : State) : Prop := s.win k = some w0 ∧ ca s k = (1, stampOf (some m))
+def S2 (s : State) : Prop := s.win k = none ∧ ca s k = (0, 0)
 def Gd (s : State) : Prop := (∀ k', s.cnt k' ≤ 1) ∧ k ∈ s.keys
 
 include hl hx hf in
@@ -1288,30 +1387,38 @@ theorem hot_of_win (i : Nat) (s : State) (hw : s.win k = some w0) : Hot P i s k 
     · rfl
     · exact h i
 
+include hl in
+theorem latest_of_win (s : State) (hw : s.win k = some w0) : latestOf s k = some m := by
+  simp [latestOf, hw, hl]
+
 include hmax hl hx hf in
 theorem one_check (i : Nat) (s : State) (l : List Nat) (hk : k.2 ∈ l) (hG : Gd k s) :
     Gd k (checkPeers P i s l).1 ∧
-    (S0 k w0 s → (S1 k w0 (checkPeers P i s l).1 ∨ S2 k (checkPeers P i s l).1) ∧
+    (S0 k w0 s → (S1 k w0 m (checkPeers P i s l).1 ∨ S2 k (checkPeers P i s l).1) ∧
         (alertKeys (checkPeers P i s l).2).count k = 1) ∧
-    (S1 k w0 s → S2 k (checkPeers P i s l).1 ∧ (alertKeys (checkPeers P i s l).2).count k = 0) ∧
+    (S1 k w0 m s → S2 k (checkPeers P i s l).1 ∧ (alertKeys (checkPeers P i s l).2).count k = 0) ∧
     (S2 k s → S2 k (checkPeers P i s l).1 ∧ (alertKeys (checkPeers P i s l).2).count k = 0) := by
   have hT := track_checkPeers P hmax i s hG.1 l
   have hv : k ∈ (peersKeys s l).reverse := List.mem_reverse.2 (mem_peersKeys.2 ⟨mem_names hG.2, hk⟩)
   refine ⟨⟨?_, by rw [hT.keys]; exact hG.2⟩, ?_, ?_, ?_⟩
   · intro k'
     rcases hT.phase k' with ⟨_, hc, _⟩ | ⟨_, _, hc, _⟩ | ⟨_, hc, _⟩
-    · rw [hc]; exact hG.1 k'
-    · omega
-    · omega
+    · simp only [ca, Prod.mk.injEq] at hc; rw [hc.1]; exact hG.1 k'
+    · simp only [ca, Prod.mk.injEq] at hc; omega
+    · simp only [ca, Prod.mk.injEq] at hc; omega
   · rintro ⟨hw, h0⟩
     have hh := hot_of_win P k w0 m hl hx hf i s hw
     rcases hT.phase k with hA | ⟨hw', _, h1, hm, _⟩ | ⟨hw', hc', _, ⟨h1, _⟩ | ⟨_, hm⟩⟩
     · exact absurd hA (hT.prog k hv hh)
-    · exact ⟨Or.inl ⟨hw' ▸ hw, h1⟩, List.count_eq_one_of_mem hT.nodup hm⟩
+    · rw [latest_of_win k w0 m hl s hw] at h1
+      exact ⟨Or.inl ⟨hw' ▸ hw, h1⟩, List.count_eq_one_of_mem hT.nodup hm⟩
     · omega
     · exact ⟨Or.inr ⟨hw', hc'⟩, List.count_eq_one_of_mem hT.nodup hm⟩
   · rintro ⟨hw, h1⟩
     have hh := hot_of_win P k w0 m hl hx hf i s hw
+    have he : ecnt s k = 1 := by
+      simp only [ca, Prod.mk.injEq] at h1
+      unfold ecnt; rw [latest_of_win k w0 m hl s hw, h1.2, h1.1]; simp
     rcases hT.phase k with hA | ⟨_, h0, _⟩ | ⟨hw', hc', _, ⟨_, hn⟩ | ⟨h0, _⟩⟩
     · exact absurd hA (hT.prog k hv hh)
     · omega
@@ -1343,7 +1450,7 @@ theorem silent_after (ls : List (List Nat)) (hcov : ∀ l ∈ ls, k.2 ∈ l) :
 
 include hmax hl hx hf in
 theorem after_first (ls : List (List Nat)) (hcov : ∀ l ∈ ls, k.2 ∈ l) (i : Nat) (s : State) (hG : Gd k s)
-    (h : S1 k w0 s ∨ S2 k s) :
+    (h : S1 k w0 m s ∨ S2 k s) :
     alertsFor k (runFrom P i s (ls.map .checkPeers)) = 0 ∧
     (ls ≠ [] → S2 k (stateAfter P i s (ls.map .checkPeers))) := by
   rcases h with h1 | h2
